@@ -113,8 +113,10 @@ func (m *impl) Exec(line string) string {
 		for _, c := range td.Cols {
 			if c.Name == ws[4] {
 				known = true
-				if strings.HasPrefix(c.Fam, "self:") {
-					inner = strings.TrimPrefix(c.Fam, "self:")
+				// a trait type that brings its own unmarshaler FOR THIS CODEC reads its own documents
+				// (an enum: names); without one it is, for this codec, a plain integer type
+				if in, _, ok := innerOfFam(c.Fam); ok && famImplements(c.Fam, ws[3]) {
+					inner = in
 				}
 			}
 		}
@@ -131,8 +133,9 @@ func (m *impl) Exec(line string) string {
 		doc := ""
 		switch {
 		case inner != "" && k == "i":
-			// a self-unmarshalling trait type (another enum): the document holds the NAME of the
-			// inner enum's value (JSON string / YAML scalar)
+			// a trait type that decodes itself for this codec (another enum generated with the codec's
+			// switch on, a hand-written type): the document holds the NAME of the inner value (JSON
+			// string / YAML scalar)
 			v, ok := new(big.Int).SetString(p, 10)
 			if !ok {
 				return "bad-op"
